@@ -725,8 +725,13 @@ class Interp:
             elif is_z3(bv):
                 run.oblige("div-nonzero@%s" % getattr(node, "lineno", "?"), cmp("!=", bv, 0), kind="safety",
                            where=getattr(node, "lineno", None))
-            elif bv == 0:
+            elif bv == 0 and self.ctx.check_div:
                 raise PyRaise("ZeroDivisionError")
+            elif bv == 0:
+                # total division: the quotient by zero is an unconstrained value (numpy yields inf/nan: A-REAL)
+                if sop != "/":
+                    raise PyRaise("ZeroDivisionError")
+                b = z3.RealVal(0) if not isinstance(b, SArr1) else SArr1(z3.RealVal(0), b.ndim)
         if sop == "**":
             return self.power(a, b, node)
         return arith(sop, a, b)
@@ -1022,7 +1027,10 @@ class Interp:
                 a = clamp(lo, z3.IntVal(0))
                 b_ = clamp(hi, n)
                 b_ = z3.If(b_ < a, a, b_)
-                return run.alloc(HSeq(o.arr, z3.simplify(o.lo + a), z3.simplify(o.lo + b_), o.elem))
+                nlo, nhi = z3.simplify(o.lo + a), z3.simplify(o.lo + b_)
+                from . import seqs
+                seqs.note_slice(self, o, nlo, nhi)
+                return run.alloc(HSeq(o.arr, nlo, nhi, o.elem))
         if isinstance(base, tuple) and (lo is None or isinstance(lo, int)) and (hi is None or isinstance(hi, int)):
             return base[lo:hi]
         m = self.ctx.models.getslice_hook(self, base, lo, hi, node)
